@@ -72,6 +72,9 @@ func (t *Topology) Get(kind string) *PeerList {
 func (t *Topology) Each(n int, l *PeerList) *PeerList {
 	var p PeerList
 
+	t.Lock()
+	defer t.Unlock()
+
 	for _, list := range t.m {
 		p.Append(list.Exclude(l).Shuffle().Take(n))
 	}
